@@ -93,7 +93,7 @@ INT_POOL = [0, 1, -1, 2, 3, 5, 2 ** 31 - 1, 2 ** 31, -2 ** 31, -2 ** 31 - 1, 2 *
             10 ** 400, -10 ** 400, (2 ** 1024 - 2 ** 970) - 1, 2 ** 1024 - 2 ** 970]
 FLOAT_POOL = ['0.0', '1.5', '-1.5', '0.5', '1.0', '2.0', '3.0', '3.40282e38', '3.40283e38', '-3.40282e38', '-3.40283e38',
               '1e39', '1e999', '-1e999', '1e-400', '2147483647.0', '2147483648.5', '-0.0']
-STR_POOL = ['', 'a', '[a-z]+', '(', '%Y-%m-%d', '\\d{3', 'x y']
+STR_POOL = ['', 'a', '[a-z]+', '(', '%Y-%m-%d', '\\d{3', 'x y', 'a{99999999999999}']
 TYPE_POOL = ['String', 'String(min_length=1)', 'Int32', 'List(String)', 'S0', 'A0', 'A1', 'String?', 'Void', 'Bytes',
              'Map(String, Int32)', 'Timestamp("%Y")', 'List(3)', 'Nope']
 
@@ -273,7 +273,7 @@ def parse_arg(toks, i, rx):
         try:
             re.compile(s)
             rx[s] = True
-        except re.error:
+        except (re.error, OverflowError):
             rx[s] = False
         return {'str': s}, i + 1
     if t in ('true', 'false'):
@@ -451,11 +451,9 @@ def suite_params(ck, report='C01', cap=None):
         else:
             ck.disagree('fe.params', {'expr': e, 'ctx': ctx}, rv, mv)
         ck.hist('fe.params.legal', '%s/%s' % ('legal' if mv['legal'] else 'illegal', rv['out']))
-        # the statements proved about the model, evaluated on the grid: legal => accepted; accepted and illegal => a
-        # hole; never an exception
-        if (mv['legal'] and mv['out'] != 'ok') or (mv['out'] == 'ok' and not mv['legal'] and not mv['hole']) or \
-                mv['out'] == 'crash':
-            ck.disagree('fe.params.theorem', {'expr': e}, 'legal_accepted / ok_imp_legal_partial / instantiate_no_crash', mv)
+        # the statements proved about the model, evaluated on the grid: accepted <=> legal; never an exception
+        if mv['legal'] != (mv['out'] == 'ok') or mv['out'] == 'crash':
+            ck.disagree('fe.params.theorem', {'expr': e}, 'instantiate_ok_iff_legal / instantiate_no_crash', mv)
         else:
             ck.agree('fe.params.theorem')
         if report == 'C01' and not void_field:
@@ -474,15 +472,9 @@ def suite_params(ck, report='C01', cap=None):
     ck.sample({'suite': 'fe.params', 'expr': cases[len(cases) // 3][0]})
 
 
-HOLE_NAMES = ['non-string-pattern', 'bound-beyond-far-end-of-width']
-
-
 def hole_shape(expr, rq, mv):
-    """class of an accepted illegal argument list (signature of the finding): the named holes of the model
-    (`hitsHole`, Props/C01.lean) or, when none applies, the type kind -- an acceptance the model does not explain"""
-    named = [n for n, hit in zip(HOLE_NAMES, mv.get('holes') or []) if hit]
-    if named:
-        return '+'.join(named)
+    """class of an accepted illegal argument list (signature of the finding): the type kind and the offending
+    keywords -- the model proves there is none, so any hit is an acceptance the model does not explain"""
     return 'unexplained:' + rq['ty']['k']
 
 
@@ -588,7 +580,7 @@ def names_legal(files):
     joined = {}
     ambiguous = False
     for p in parts:
-        if joined.setdefault(p[0] + p[1], p) != p:
+        if joined.setdefault(p[0] + '/' + p[1], p) != p:       # _get_base_name joins the parts with '/'
             ambiguous = True
     return rule is None, rule, ambiguous
 
